@@ -1017,21 +1017,60 @@ def fmt_display_chars(ex, v):
         fm = FormatterV(); ex.run_fn(ex.prog.by_key[('Display', v.ty, 'fmt')], [Ptr(Cell(v)), Ptr(Cell(fm))])
         return list(fm.chars)
     return list(fmt_display(ex, v))
-def fmt_debug(ex, v):
-    v = deref_all(v)
-    if isinstance(v, Agg) and v.lazy is not None: return f'<symbolic {v.ty}>'
+class DNode:
+    """structured Debug output: atom | struct | tuple | list | map, rendered compactly ({:?}) or prettily ({:#?})"""
+    __slots__ = ('kind', 'name', 'items')
+    def __init__(s, kind, name, items=None): s.kind, s.name, s.items = kind, name, items or []
+def dbg_render(n, pretty=False, ind=0):
+    if isinstance(n, str): return n
+    if n.kind == 'atom': return n.name
+    pad = '    ' * (ind + 1); end = '    ' * ind
+    if n.kind == 'struct':
+        if not n.items: return n.name
+        if pretty: return n.name + ' {\n' + ''.join(f'{pad}{k}: {dbg_render(v, True, ind + 1)},\n' for k, v in n.items) + end + '}'
+        return n.name + ' { ' + ', '.join(f'{k}: {dbg_render(v)}' for k, v in n.items) + ' }'
+    if n.kind == 'tuple':
+        if not n.items: return n.name
+        if pretty: return n.name + '(\n' + ''.join(f'{pad}{dbg_render(v, True, ind + 1)},\n' for v in n.items) + end + ')'
+        return n.name + '(' + ', '.join(dbg_render(v) for v in n.items) + ')'
+    if n.kind == 'list':
+        if not n.items: return '[]'
+        if pretty: return '[\n' + ''.join(f'{pad}{dbg_render(v, True, ind + 1)},\n' for v in n.items) + end + ']'
+        return '[' + ', '.join(dbg_render(v) for v in n.items) + ']'
+    if n.kind == 'map':
+        if not n.items: return '{}'
+        if pretty: return '{\n' + ''.join(f'{pad}{dbg_render(k, True, ind + 1)}: {dbg_render(v, True, ind + 1)},\n' for k, v in n.items) + end + '}'
+        return '{' + ', '.join(f'{dbg_render(k)}: {dbg_render(v)}' for k, v in n.items) + '}'
+    return '<?>'
+def dbg_tree(ex, v):
+    while isinstance(v, Ptr): v = v.cell.v          # &T, Box<T>, Rc<T> are transparent in Debug
+    if isinstance(v, Agg) and v.lazy is not None: return DNode('atom', f'<symbolic {v.ty}>')
     if isinstance(v, StrV):
-        c = v.concrete(); return json.dumps(c, ensure_ascii=False) if c is not None else '<symstr>'
-    if isinstance(v, Int): return fmt_display(ex, v)
+        return DNode('atom', ''.join(debug_str_chars(ex, v)) if v.concrete() is not None else '<symstr>')
+    if isinstance(v, Bool): return DNode('atom', fmt_display(ex, v))
+    if isinstance(v, Int): return DNode('atom', fmt_display(ex, v) if v.ty != 'char' or v.concrete() is None else repr(chr(v.concrete())))
+    if isinstance(v, F64):
+        x = f64_concrete(v)
+        return DNode('atom', '<symfloat>' if x is None else (fmt_f64(x) if x == x and abs(x) != float('inf') else rust_float_display(x)))
+    if isinstance(v, NumberV):
+        c = cval(v.val)
+        return DNode('atom', 'Number(' + ('<symnum>' if c is None else (fmt_f64(c) if v.kind == 'float' else str(c))) + ')')          # serde_json: write!(f, "Number({})", self)
+    if isinstance(v, (VecV, SliceRef)): return DNode('list', None, [dbg_tree(ex, c.v) for c in v.items])
+    if isinstance(v, MapV): return DNode('map', None, [(DNode('atom', ''.join(debug_str_chars(ex, rstr(k)))), dbg_tree(ex, v.d[k].v)) for k in v.keys()])
     if isinstance(v, Agg):
+        if v.ty == 'Option': return DNode('tuple', 'Some', [dbg_tree(ex, v.fields[0].v)]) if v.variant == 'Some' else DNode('atom', 'None')
+        if v.kind == 'tuple': return DNode('tuple', '', [dbg_tree(ex, c.v) for c in v.fields])
         f = ex.prog.by_key.get(('Debug', v.ty, 'fmt'))
-        if f is None: return f'<{v.ty}>'
-        fm = FormatterV()
+        if f is None: return DNode('atom', f'<{v.ty}>')
+        fm = FormatterV(); fm.parts = []
         ex.run_fn(f, [Ptr(Cell(v)), Ptr(Cell(fm))])
-        return ''.join(fm.buf)
-    return f'<{type(v).__name__}>'
-def render_arg(ex, arg):
-    return fmt_display(ex, arg.fields[0].v) if arg.fields[1].v.tag == 'display' else fmt_debug(ex, arg.fields[0].v)
+        if len(fm.parts) == 1 and isinstance(fm.parts[0], DNode): return fm.parts[0]
+        return DNode('atom', ''.join(fm.buf))
+    return DNode('atom', f'<{type(v).__name__}>')
+def fmt_debug(ex, v, pretty=False):
+    return dbg_render(dbg_tree(ex, v), pretty)
+def render_arg(ex, arg, alternate=False):
+    return fmt_display(ex, arg.fields[0].v) if arg.fields[1].v.tag == 'display' else fmt_debug(ex, arg.fields[0].v, alternate)
 def render_chars(ex, args):
     """fmt::Arguments -> list of characters (python str of length 1, or symbolic Int(char)); symbolic strings/chars shown with
     {} keep their symbolic characters, everything else is rendered concretely (symbolic scalars as placeholders)."""
@@ -1062,7 +1101,7 @@ def render_chars(ex, args):
             if mode == 'display' and isinstance(v, StrV): out.extend(v.chars)
             elif mode == 'debug' and isinstance(v, StrV) and v.concrete() is None: out.extend(debug_str_chars(ex, v))
             elif mode == 'display' and isinstance(v, Int) and v.ty == 'char' and v.concrete() is None: out.append(v)
-            else: out.extend(render_arg(ex, arg))
+            else: out.extend(render_arg(ex, arg, bool(fl & (1 << 23))))
             k = idx + 1
     ex.u_fmt_flags = flags_seen
     return out
@@ -1076,20 +1115,27 @@ def m_to_string(ex, a, m):
 @model('std::fmt::Formatter::write_str')
 def m_write_str(ex, a):
     f = a[0].cell.v; sv = as_str(a[1]); f.chars.extend(sv.chars)
-    f.buf.append(sv.concrete() if sv.concrete() is not None else '\ufffd' * len(sv.chars)); return ok(UNIT)
+    f.buf.append(sv.concrete() if sv.concrete() is not None else '\ufffd' * len(sv.chars))
+    if hasattr(f, 'parts'): f.parts.append(f.buf[-1])
+    return ok(UNIT)
 @model('std::fmt::Formatter::write_fmt')
 def m_write_fmt(ex, a):
     f = a[0].cell.v; cs = render_chars(ex, a[1]); f.chars.extend(cs)
-    f.buf.append(''.join(c if isinstance(c, str) else (chr(c.concrete()) if c.concrete() is not None else '\ufffd') for c in cs)); return ok(UNIT)
+    f.buf.append(''.join(c if isinstance(c, str) else (chr(c.concrete()) if c.concrete() is not None else '\ufffd') for c in cs))
+    if hasattr(f, 'parts'): f.parts.append(f.buf[-1])
+    return ok(UNIT)
 @model_rx(r'^std::fmt::Formatter::debug_tuple_field(\d)_finish$')
 def m_debug_tuple(ex, a, m):
     f = a[0].cell.v; name = conc(ex, as_str(a[1]))
-    f.buf.append(name + '(' + ', '.join(fmt_debug(ex, x) for x in a[2:]) + ')'); return ok(UNIT)
+    n = DNode('tuple', name, [dbg_tree(ex, x) for x in a[2:]])
+    if hasattr(f, 'parts'): f.parts.append(n)
+    f.buf.append(dbg_render(n)); return ok(UNIT)
 @model_rx(r'^std::fmt::Formatter::debug_struct_field(\d)_finish$')
 def m_debug_struct(ex, a, m):
     f = a[0].cell.v; name = conc(ex, as_str(a[1])); rest = a[2:]
-    parts = [f'{conc(ex, as_str(rest[i]))}: {fmt_debug(ex, rest[i + 1])}' for i in range(0, len(rest), 2)]
-    f.buf.append(name + ' { ' + ', '.join(parts) + ' }'); return ok(UNIT)
+    n = DNode('struct', name, [(conc(ex, as_str(rest[i])), dbg_tree(ex, rest[i + 1])) for i in range(0, len(rest), 2)])
+    if hasattr(f, 'parts'): f.parts.append(n)
+    f.buf.append(dbg_render(n)); return ok(UNIT)
 def fmt_f64(x):
     """serde_json's number printing (ryu `pretty`): shortest round-trip digits; positional notation for 1e-5 <= |x| < 1e16, exponent otherwise"""
     import math
